@@ -162,7 +162,11 @@ class UniformShapeOperations(OperationsBlock):
                 ),
                 to=dtypes.int64,
             )
-            new_indices = opx.mod(opx.add(range, shift_single), len_single)
+            # an axis of extent 0 has no indices to compute; avoid an integer modulo by zero
+            divisor = ndx.where(
+                from_corearray(len_single) == 0, 1, from_corearray(len_single)
+            )._core()
+            new_indices = opx.mod(opx.add(range, shift_single), divisor)
             x = ndx.take(x, from_corearray(new_indices), axis=ax)
 
         return ndx.reshape(x, old_shape)
